@@ -47,7 +47,13 @@ BSTR_LENS = [0, 1, 2, 23, 24, 255, 256]
 FLOATS = [0x0000000000000000, 0x8000000000000000, 0x3ff0000000000000, 0x3ff8000000000000, 0x7ff0000000000000,
           0xfff0000000000000, 0x3fb999999999999a, 0x47efffffe0000000, 0x3e70000000000000, 0x0000000000000001,
           0x36a0000000000000, 0x40f86a0000000000, 0xc0f86a0000000000, 0x41d7ffffffc00000, 0x7fefffffffffffff,
-          0x3f10000000000000, 0x3a00000000000000]
+          0x3f10000000000000, 0x3a00000000000000,
+          0x7ff8000000000000, 0xfff8000000000000, 0x7ff8000020000000, 0x7ff8000000000001, 0x7ff0000000000001]
+
+# NaNs as they can appear on the wire (quiet / signalling, every width)
+NAN_WIRE = [bytes.fromhex(h) for h in ('f97e00', 'f97c01', 'f9fe00', 'fa7fc00000', 'fa7f800001', 'fb7ff8000000000000', 'fb7ff0000000000001', 'fbfff8000000000001')]
+
+RAW_NAN = [True]    # descriptions of in-memory values never carry wire-level NaN spellings
 
 ALL_TYPES = ['Value', 'Label', 'Header', 'ProtectedHeader', 'CoseSignature', 'CoseSign', 'CoseSign1', 'CoseMac',
              'CoseMac0', 'CoseRecipient', 'CoseEncrypt', 'CoseEncrypt0', 'CoseKey', 'CoseKeySet', 'ClaimsSet',
@@ -78,7 +84,8 @@ def gen_scalar(rng):
     if r < 0.4: return I(rng.randrange(-1000, 1000))
     if r < 0.55: return B(rbytes(rng))
     if r < 0.7: return T(rng.choice(TEXT_LABELS + CT_TEXT_OK))
-    if r < 0.78: return ('f', rng.choice(FLOATS))
+    if r < 0.76: return ('f', rng.choice(FLOATS))
+    if r < 0.78: return ('raw', rng.choice(NAN_WIRE)) if RAW_NAN[0] else ('f', 0x7ff8000000000000)
     if r < 0.86: return rng.choice([TRUE, FALSE, NULL])
     if r < 0.93: return I(rng.randrange(-2**64, 2**64))
     return B(rbytes(rng, rng.choice(BSTR_LENS)))
@@ -557,3 +564,15 @@ DESC_GEN = {
 }
 for _t in MSG_TYPES:
     DESC_GEN[_t] = (lambda t: (lambda rng: gen_desc_msg(rng, t)))(_t)
+
+def _no_raw(f):
+    def g(*a, **k):
+        old = RAW_NAN[0]; RAW_NAN[0] = False
+        try: return f(*a, **k)
+        finally: RAW_NAN[0] = old
+    return g
+for _n in ("gen_desc_header", "gen_desc_protected", "gen_desc_signature", "gen_desc_recipient", "gen_desc_msg", "gen_desc_key",
+           "gen_desc_claims", "gen_desc_party", "gen_desc_supp", "gen_desc_kdf", "gen_rest_pairs"):
+    globals()[_n] = _no_raw(globals()[_n])
+for _k in list(DESC_GEN):
+    DESC_GEN[_k] = _no_raw(DESC_GEN[_k])
